@@ -539,7 +539,15 @@ func hasLispDefinition(fi *slip.FuncInfo) (ok bool) {
 			ok = false
 		}
 	}()
-	if fi.Kind == slip.GenericFunctionSymbol || fi.Kind == slip.FlosSymbol {
+	switch fi.Kind {
+	case slip.FlosSymbol:
+		return true
+	case slip.GenericFunctionSymbol:
+		// The accessors of a class are defined by the defclass. A defgeneric
+		// for them would replace the methods the class added.
+		if aux, has := fi.Aux.(interface{ DefinedInLisp() bool }); has {
+			return aux.DefinedInLisp()
+		}
 		return true
 	}
 	if fun, _ := fi.Create(nil).(slip.Funky); fun != nil {
